@@ -176,6 +176,7 @@ def exec_owner(case, out):
     while leaf.payloads and isinstance(leaf.payloads[0], Fiber):
         leaf = leaf.payloads[0]
         lvl += 1
+    out["maxcoord"] = max([c for c in root.coords if isinstance(c, int)] + [-1])
     out["after_rid"] = str(root.getRankAttrs().getId())
     out["rank_rid"] = str(t.ranks[0].getId())
     out["after_shape"] = root.getShape(all_ranks=False)
